@@ -35,7 +35,13 @@ func c16BuildTx(maxSets, maxKeys int) ([]byte, []c16Set, []byte) {
 		if set.multi {
 			set.m = 1 + nondetRange("m", n)
 		}
-		ns := set.m // exactly m signatures are supplied
+		ns := set.m // m signatures, or up to `extrasigs` spare ones (never more than keys)
+		if set.multi && param("extrasigs") > 0 {
+			ns += nondetRange("extrasigs", param("extrasigs")+1)
+			if ns > n {
+				ns = n
+			}
+		}
 		var inv []byte
 		for j := 0; j < ns; j++ {
 			sg := nondetBytes("sig", 4)
